@@ -1085,7 +1085,8 @@ impl<'a> Drop for ZipFile<'a> {
 ///
 /// Reads a file header from the start of the stream. Will return `Ok(Some(..))` if a file is
 /// present at the start of the stream. Returns `Ok(None)` if the start of the central directory
-/// is encountered. No more files should be read after this.
+/// is encountered (in an archive without entries: the end of central directory record). No more
+/// files should be read after this.
 ///
 /// The Drop implementation of ZipFile ensures that the reader will be correctly positioned after
 /// the structure is done.
@@ -1097,11 +1098,23 @@ impl<'a> Drop for ZipFile<'a> {
 pub fn read_zipfile_from_stream<'a, R: io::Read>(
     reader: &'a mut R,
 ) -> ZipResult<Option<ZipFile<'_>>> {
+    Ok(read_zipfile_or_end_from_stream(reader)?.ok())
+}
+
+/// [`read_zipfile_from_stream`] that tells which record ends the entries: `Err` carries the
+/// signature that has been consumed, that of a central directory header or, when the archive has
+/// no entries and therefore no central directory headers, that of the (ZIP64) end of central
+/// directory record.
+pub(crate) fn read_zipfile_or_end_from_stream<'a, R: io::Read>(
+    reader: &'a mut R,
+) -> ZipResult<Result<ZipFile<'a>, u32>> {
     let signature = reader.read_u32::<LittleEndian>()?;
 
     match signature {
         spec::LOCAL_FILE_HEADER_SIGNATURE => (),
-        spec::CENTRAL_DIRECTORY_HEADER_SIGNATURE => return Ok(None),
+        spec::CENTRAL_DIRECTORY_HEADER_SIGNATURE
+        | spec::CENTRAL_DIRECTORY_END_SIGNATURE
+        | spec::ZIP64_CENTRAL_DIRECTORY_END_SIGNATURE => return Ok(Err(signature)),
         _ => return Err(ZipError::InvalidArchive("Invalid local file header")),
     }
 
@@ -1187,7 +1200,7 @@ pub fn read_zipfile_from_stream<'a, R: io::Read>(
     )?
     .unwrap();
 
-    Ok(Some(ZipFile {
+    Ok(Ok(ZipFile {
         data: Cow::Owned(result),
         crypto_reader: None,
         reader: make_reader(result_compression_method, result_crc32, crypto_reader),
